@@ -129,7 +129,7 @@ def routine_clone(p):
 def c17_cases():
     out = []
     for name, src, entry, sizes in sources():
-        out.append(Case(f'{name}/clone-equals-original', src, entry, sizes[:1], clone_equals, 'clone', must_change=False))
+        out.append(Case(f'{name}/clone-equals-original', src, entry, sizes[:1], clone_equals, 'clone', must_change=False, raise_is_violation=True))
         out.append(Case(f'{name}/routine-clone', src, entry, sizes[:1], routine_clone, 'clone', must_change=False))
         for k in (0, 2):
             out.append(Case(f'{name}/edit-clone-{k}', src, entry, sizes[:1], mk_edit_clone(k), 'clone', must_change=False))
@@ -157,8 +157,8 @@ def pickled_units(p):
 def c18_cases():
     out = []
     for name, src, entry, sizes in sources():
-        out.append(Case(f'{name}/sourcefile', src, entry, sizes[:1], pickled_sourcefile, 'pickle', must_change=False))
-        out.append(Case(f'{name}/units', src, entry, sizes[:1], pickled_units, 'pickle', must_change=False))
+        out.append(Case(f'{name}/sourcefile', src, entry, sizes[:1], pickled_sourcefile, 'pickle', must_change=False, raise_is_violation=True))
+        out.append(Case(f'{name}/units', src, entry, sizes[:1], pickled_units, 'pickle', must_change=False, raise_is_violation=True))
     return out
 
 
